@@ -63,8 +63,27 @@ Section Spec.
 
   (* --- histories ------------------------------------------------------------ *)
 
-  Definition is_export (o : op) : bool := match o with OExport => true | _ => false end.
-  Definition exported_in (older : list op) : bool := existsb is_export older.
+  (* the connection a remote call arrives on (0 for local operations) *)
+  Definition arrives (o : op) : nat :=
+    match o with OGet c _ _ | OSet c _ _ _ | OGetAll c _ => c | _ => 0%nat end.
+
+  (* is the object exported on connection c after the operations `older`
+     (newest first)?  The last export / unexport on c decides. *)
+  Fixpoint exp_in (older : list op) (c : nat) : bool :=
+    match older with
+    | [] => false
+    | OExport c' :: r => if Nat.eqb c' c then true else exp_in r c
+    | OUnexport c' :: r => if Nat.eqb c' c then false else exp_in r c
+    | _ :: r => exp_in r c
+    end.
+
+  (* the connection of the most recent export *)
+  Fixpoint handler_in (older : list op) : option nat :=
+    match older with
+    | [] => None
+    | OExport c :: _ => Some c
+    | _ :: r => handler_in r
+    end.
 
   (* the property an operation assigns and the value, given whether the object
      was exported before it: a local assignment always takes effect, a remote
@@ -72,7 +91,7 @@ Section Spec.
   Definition write_of (was_exported : bool) (o : op) : option (decl * pyval) :=
     match o with
     | OAssign a v => option_map (fun d => (d, v)) (by_attr a)
-    | OSet i n v =>
+    | OSet _ i n v =>
         if was_exported then
           match named i n with
           | Some d => if writable (dc_prop d) then Some (d, v) else None
@@ -87,7 +106,7 @@ Section Spec.
     match rh with
     | [] => PNone                   (* never assigned: Python's None *)
     | o :: older =>
-        match write_of (exported_in older) o with
+        match write_of (exp_in older (arrives o)) o with
         | Some (d, v) => if str_eqb (dc_iface d) i && str_eqb (dc_name d) n then v else latest_rev older i n
         | None => latest_rev older i n
         end
@@ -96,15 +115,16 @@ Section Spec.
   (* the value most recently assigned to property n of interface i *)
   Definition latest (hist : list op) (i n : str) : pyval := latest_rev (rev hist) i n.
 
-  Definition exported (hist : list op) : bool := exported_in (rev hist).
+  Definition exported_on (hist : list op) (c : nat) : bool := exp_in (rev hist) c.
+  Definition handler_of (hist : list op) : option nat := handler_in (rev hist).
 
   (* --- what each operation must produce after the history hist -------------- *)
 
   Definition shown (hist : list op) (d : decl) : res (str * pyval) :=
     present (p_sig (dc_prop d)) (latest hist (dc_iface d) (dc_name d)).
 
-  Definition s_get (hist : list op) (i n : str) : reply :=
-    if exported hist then
+  Definition s_get (hist : list op) (c : nat) (i n : str) : reply :=
+    if exported_on hist c then
       match named i n with
       | Some d =>
           if readable (dc_prop d)
@@ -114,17 +134,51 @@ Section Spec.
       end
     else RErr.
 
-  (* PropertiesChanged signals of one operation *)
+  (* PropertiesChanged signals of one operation.  The property text asks for ONE
+     signal per assignment of a notifying property and does not speak about
+     connections.  Read here as: the signal goes out on the connection of the most
+     recent export (an object exported on two connections at once announces on
+     the later one only - what the code does, taken as given), whether or not
+     the object has since been unexported; nothing before the first export. *)
   Definition s_changed (hist : list op) (o : op) : list signal :=
-    match write_of (exported hist) o with
+    match write_of (exported_on hist (arrives o)) o with
     | Some (d, v) =>
-        if notifies (dc_prop d) && exported hist then
-          match present (p_sig (dc_prop d)) v with
-          | Ok (sg, x) => [SigChanged (dc_iface d) (dc_name d) sg x]
-          | Err _ => []
+        if notifies (dc_prop d) then
+          match handler_of hist with
+          | Some c =>
+              match present (p_sig (dc_prop d)) v with
+              | Ok (sg, x) => [SigChanged c (dc_iface d) (dc_name d) sg x]
+              | Err _ => []
+              end
+          | None => []
           end
         else []
     | None => []
+    end.
+
+  (* What the statement DEMANDS of the signals `sigs` an operation emits, given
+     that reading (s_changed satisfies it, see changed_demanded_refl):
+     - never exported: none;
+     - the object is exported on the connection of its most recent export:
+       exactly s_changed (one signal there, or none);
+     - it is exported only on another connection (the latest one was
+       unexported again): the right number and content, the connection is left open;
+     - it is exported nowhere any more: either nothing or s_changed. *)
+  Definition unplaced (s : signal) : signal :=
+    match s with
+    | SigChanged _ i n sg v => SigChanged 0 i n sg v
+    | SigAdded _ d => SigAdded 0 d
+    | SigRemoved _ l => SigRemoved 0 l
+    end.
+
+  Definition changed_demanded (conns : list nat) (hist : list op) (o : op) (sigs : list signal) : Prop :=
+    match handler_of hist with
+    | None => sigs = []
+    | Some c =>
+        if exported_on hist c then sigs = s_changed hist o
+        else if existsb (exported_on hist) conns
+             then map unplaced sigs = map unplaced (s_changed hist o)
+             else sigs = [] \/ sigs = s_changed hist o
     end.
 
   (* GetAll i, as a finite map: the entry of property name n *)
